@@ -273,6 +273,9 @@ let verdict case impl =
             | _ -> EV_idchange (s, n_of_hex arg) in
           push_op (TO_event (nat_of_int (int_of_string ("0x" ^ node)), e))
         | ["Y"; _; _] -> has_par := true; pending_par := 2
+        | ["Z"; _; _] -> ()    (* k concurrent executes of DISTINCT statements on one connection: the statements are
+                                 independent (own id, own cell, own entry in the node's cache), so each caller's
+                                 exchanges — projected by statement id — are judged as one sequential operation *)
         | "F" :: _ -> forced := true
         | _ -> failwith ("bad op " ^ t)) optoks;
     let items = List.rev !items in
